@@ -10,8 +10,48 @@ U32_CORNERS = [0, 1, 0xff, 0x100, 0xffff, 0x10000, 0xffffff, 0x1000000, 0x7fffff
                0xfffffffe, 0xffffffff, 0x00223344, 0x000000ff, 0x0000ffff, 0xff000000]
 
 
+def harvest(root=None):
+    """integer literals and byte-array literals of the crate's non-test source: values the code
+    compares against are values worth feeding it (a 32-bit magic constant is never hit by chance)"""
+    import os, re
+    root = root or os.path.join(os.environ.get("RTCP_REPO", "/repo"), "src")
+    ints, seqs = set(), set()
+    for dp, _, fs in os.walk(root):
+        for f in fs:
+            if not f.endswith(".rs"): continue
+            t = open(os.path.join(dp, f), errors="replace").read()
+            cut = t.find("#[cfg(test)]")
+            if cut >= 0: t = t[:cut]
+            t = re.sub(r"//[^\n]*", "", t)
+            for m in re.finditer(r"\b0x([0-9a-fA-F_]+)|\b(\d[\d_]*)\b", t):
+                try:
+                    v = int(m.group(1).replace("_", ""), 16) if m.group(1) else int(m.group(2).replace("_", ""))
+                except ValueError:
+                    continue
+                if v < 1 << 64: ints.add(v)
+            for m in re.finditer(r"\[((?:\s*(?:0x[0-9a-fA-F]{1,2}|\d{1,3})\s*,){1,15}\s*(?:0x[0-9a-fA-F]{1,2}|\d{1,3})\s*,?\s*)\]", t):
+                try:
+                    bs = bytes(int(x, 0) for x in m.group(1).replace(" ", "").replace("\n", "").split(",") if x)
+                    if 2 <= len(bs) <= 16: seqs.add(bs)
+                except ValueError:
+                    pass
+    for bs in list(seqs):
+        if len(bs) == 4: ints.add(int.from_bytes(bs, "big")); ints.add(int.from_bytes(bs, "little"))
+        if len(bs) == 2: ints.add(int.from_bytes(bs, "big"))
+    return sorted(ints), sorted(seqs)
+
+
+try:
+    DICT_INTS, DICT_SEQS = harvest()
+except OSError:
+    DICT_INTS, DICT_SEQS = [], []
+DICT_U32 = [v for v in DICT_INTS if 255 < v < 1 << 32] or [0]
+
+
 def r_u32(r):
-    return r.choice(U32_CORNERS) if r.random() < 0.5 else r.getrandbits(32)
+    x = r.random()
+    if x < 0.08: return r.choice(DICT_U32)
+    return r.choice(U32_CORNERS) if x < 0.5 else r.getrandbits(32)
 
 
 def r_u64(r):
@@ -194,6 +234,12 @@ def setter_calls(cfg):
 
 
 def render(cfg, r=None, style="canon"):
+    if cfg["k"] == "custom" and cfg.get("unit"):
+        return f"(unit {cfg['pt']})"
+    return render_(cfg, r, style)
+
+
+def render_(cfg, r=None, style="canon"):
     """Render a configuration as a call sequence.
     style: canon | shuffle (independent setters permuted, list adders interleaved at random
     positions keeping their relative order) | repeat (each scalar setter preceded by a call with a
@@ -303,15 +349,30 @@ def r_count(r, lim=31):
     return r.randint(0, lim)
 
 
+def with_repeats(r, xs, p=0.2, copy=lambda x: dict(x)):
+    """some elements repeated right after themselves or later in the list (same total length)"""
+    if len(xs) < 2 or r.random() > p: return xs
+    xs = list(xs)
+    for _ in range(r.randint(1, 2)):
+        i = r.randrange(len(xs) - 1)
+        j = i + 1 if r.random() < 0.6 else r.randrange(i + 1, len(xs))
+        xs[j] = copy(xs[i])
+    return xs
+
+
 def cfg_sr(r):
     n = r_count(r)
-    return {"k": "sr", "ssrc": r_u32(r), "padding": r_padding(r), "ntp": r_u64(r), "rtp": r_u32(r), "pc": r_u32(r),
-            "oc": r_u32(r), "rbs": [r_rb(r, r.random() > 0.03) for _ in range(n)]}
+    c = {"k": "sr", "ssrc": r_u32(r), "padding": r_padding(r), "ntp": r_u64(r), "rtp": r_u32(r), "pc": r_u32(r),
+         "oc": r_u32(r), "rbs": with_repeats(r, [r_rb(r, r.random() > 0.03) for _ in range(n)])}
+    if c["rbs"] and r.random() < 0.1: c["rbs"][r.randrange(len(c["rbs"]))]["ssrc"] = c["ssrc"]   # a block about the sender itself
+    return c
 
 
 def cfg_rr(r):
     n = r_count(r)
-    return {"k": "rr", "ssrc": r_u32(r), "padding": r_padding(r), "rbs": [r_rb(r, r.random() > 0.03) for _ in range(n)]}
+    c = {"k": "rr", "ssrc": r_u32(r), "padding": r_padding(r), "rbs": with_repeats(r, [r_rb(r, r.random() > 0.03) for _ in range(n)])}
+    if c["rbs"] and r.random() < 0.1: c["rbs"][r.randrange(len(c["rbs"]))]["ssrc"] = c["ssrc"]
+    return c
 
 
 def cfg_bye(r):
@@ -320,7 +381,7 @@ def cfg_bye(r):
     if x < 0.25: rl = 0
     elif x < 0.9: rl = r.choice([1, 2, 3, 4, 5, 6, 7, 8, 254, 255, r.randint(0, 255)])
     else: rl = r.choice([256, 257, 300])
-    return {"k": "bye", "padding": r_padding(r), "sources": [r_u32(r) for _ in range(n)],
+    return {"k": "bye", "padding": r_padding(r), "sources": with_repeats(r, [r_u32(r) for _ in range(n)], copy=lambda x: x),
             "reason": r_text(r, rl) if (rl or r.random() < 0.5) else None,
             "reason_call": r.choice(["reason", "reason_owned"])}
 
@@ -388,6 +449,11 @@ def cfg_sdes(r):
             c = r_chunk(r); c["items"] = c["items"][:1]; chunks.append(c)
     else:
         chunks = [r_chunk(r) for _ in range(n)]
+    if len(chunks) >= 2 and r.random() < 0.25:
+        # the same SSRC in two chunks, adjacent or not
+        i = r.randrange(len(chunks) - 1)
+        j = i + 1 if r.random() < 0.6 else r.randrange(i + 1, len(chunks))
+        chunks[j]["ssrc"] = chunks[i]["ssrc"]
     return {"k": "sdes", "padding": r_padding(r), "chunks": chunks}
 
 
@@ -479,8 +545,9 @@ def cfg_fb(r, k=None, fci_kind=None, allow_wrong=True):
     natural = "tfb" if fci["k"] == "nack" else "pfb"
     if k is None:
         k = natural if (not allow_wrong or r.random() < 0.9) else ("pfb" if natural == "tfb" else "tfb")
+    snd = r_u32(r)
     return {"k": k, "mode": r.choice(["borrowed", "owned"]), "fci": fci, "padding": r_padding(r),
-            "sender": r_u32(r), "media": r_u32(r)}
+            "sender": snd, "media": snd if r.random() < 0.08 else r_u32(r)}
 
 
 CUSTOM_PTS = [0, 192, 199, 200, 204, 207, 208, 242, 255]
@@ -520,6 +587,9 @@ def cfg_compound(r, depth=0):
         y = r.random()
         if y < 0.1 and depth < 2:
             m = cfg_compound(r, depth + 1)
+        elif y < 0.14:
+            # a zero-sized third-party writer (same image as a custom packet of MIN 8 with four zero bytes)
+            m = {"k": "custom", "unit": True, "pt": r.choice([242, 208, 199]), "min": 8, "body": bytes(4), "padding": 0}
         elif y < 0.2:
             m = cfg_custom(r)
         elif y < 0.35:
